@@ -564,6 +564,202 @@ func capBoundary(ctx *hx.Ctx, extra int) {
 	ctx.Kind(Format.Name + " cap-boundary")
 }
 
+// ---- near-cap probes (C08) ----
+
+// runHistory feeds a hand-built packet history to a fresh decoder, records it as a correspondence
+// case and applies the C08 oracles directly: no panic, every returned unit within
+// MaxTemporalUnitSize / MaxOBUsPerTemporalUnit, retained memory within the proved bound
+// (frame buffer <= cap, fragments <= max(cap, packet)).
+func runHistory(ctx *hx.Ctx, name string, hist []*rtp.Packet) {
+	d, _ := Format.NewDecoder(0)
+	ctx.Eval()
+	var c, o hx.L
+	c.N(2).I(0).I(len(hist))
+	maxPkt := 0
+	for _, p := range hist {
+		codec.PutPacket(&c, p)
+		if len(p.Payload) > maxPkt {
+			maxPkt = len(p.Payload)
+		}
+	}
+	for i, p := range hist {
+		q := *p
+		q.Payload = append([]byte(nil), p.Payload...)
+		var fr codec.Frame
+		res := codec.ResPanic
+		func() {
+			defer func() {
+				if x := recover(); x != nil {
+					ctx.Failf(-1, "dec-panic", name, "rtpav1 %s: Decode panicked at packet %d: %v", name, i, x)
+				}
+			}()
+			fr, res = d.Decode(&q)
+		}()
+		o.I(res)
+		if res == codec.ResPanic {
+			break
+		}
+		if res == codec.ResFrame {
+			codec.PutFrame(&o, fr)
+			n := 0
+			for _, u := range fr {
+				n += len(u)
+			}
+			if n > capSize {
+				ctx.Failf(-1, "frame-too-big", name, "rtpav1 %s: packet %d returned a temporal unit of %d bytes (%d OBUs), MaxTemporalUnitSize is %d", name, i, n, len(fr), capSize)
+			}
+			if len(fr) > capObus {
+				ctx.Failf(-1, "frame-too-many-units", name, "rtpav1 %s: packet %d returned a temporal unit of %d OBUs, MaxOBUsPerTemporalUnit is %d", name, i, len(fr), capObus)
+			}
+		}
+		if i%8 == 0 || i == len(hist)-1 {
+			b, sl := codec.Retained(d.Raw())
+			if b > 2*capSize+maxPkt {
+				ctx.Failf(-1, "retained-bytes", name, "rtpav1 %s: %d bytes retained after packet %d (bound 2 x %d + %d)", name, b, i, capSize, maxPkt)
+			}
+			if sl > capObus+capSize {
+				ctx.Failf(-1, "retained-slices", name, "rtpav1 %s: %d slice headers retained after packet %d", name, sl, i)
+			}
+		}
+	}
+	b, sl := codec.Retained(d.Raw())
+	o.I(b).I(sl)
+	ctx.Corr(c.String(), o.String())
+	ctx.Kind("rtpav1 near-cap")
+	ctx.Nontrivial("rtpav1|near-cap|" + name)
+}
+
+// ncProbe describes a history that drives the decoder to (within k bytes of) its caps and then
+// completes the temporal unit in different ways.
+type ncProbe struct {
+	pre       []int // complete OBUs buffered first, one packet each (Z=0 Y=0 W=1, no marker)
+	fragTotal int   // size of the fragmented OBU once its last piece has arrived (0: none)
+	extras    []int // further complete OBUs carried by the completing packet, after the last piece
+	marker    bool  // marker on the completing packet (otherwise a closing 1-byte unit with marker follows)
+	finalZ    bool  // completing packet continues the fragmented OBU (false: it does not - pending fragments are orphaned)
+	finalY    bool  // last element of the completing packet starts a new fragmented OBU
+	useW      bool  // W = element count, last element without size (when <= 3 elements); else W = 0
+}
+
+const ncFrag = 64000 // piece size of the build-up (keeps it to ~50 packets)
+
+func (pr ncProbe) String() string {
+	return fmt.Sprintf("pre=%v frag=cap%+d extras=%v marker=%v Z=%v Y=%v W=%v", pr.pre, pr.fragTotal-capSize, pr.extras, pr.marker, pr.finalZ, pr.finalY, pr.useW)
+}
+
+func fill(n int) []byte {
+	b := make([]byte, n)
+	for i := range b {
+		b[i] = 7
+	}
+	return b
+}
+
+func (pr ncProbe) history() []*rtp.Packet {
+	seq := uint16(65500)
+	var hist []*rtp.Packet
+	add := func(marker bool, payload []byte) {
+		hist = append(hist, &rtp.Packet{Header: rtp.Header{Version: 2, PayloadType: 96, SequenceNumber: seq, Marker: marker}, Payload: payload})
+		seq++
+	}
+	for _, s := range pr.pre {
+		add(false, append([]byte{0x10}, fill(s)...))
+	}
+	elems := [][]byte{}
+	if pr.fragTotal > 0 {
+		nFull := (pr.fragTotal - 1) / ncFrag
+		last := pr.fragTotal - nFull*ncFrag
+		for i := 0; i < nFull; i++ {
+			h := byte(0xd0)
+			if i == 0 {
+				h = 0x50
+			}
+			add(false, append([]byte{h}, fill(ncFrag)...))
+		}
+		elems = append(elems, fill(last))
+	}
+	for _, s := range pr.extras {
+		elems = append(elems, fill(s))
+	}
+	h := byte(0)
+	if pr.finalZ {
+		h |= 0x80
+	}
+	if pr.finalY {
+		h |= 0x40
+	}
+	w := 0
+	if pr.useW && len(elems) <= 3 {
+		w = len(elems)
+	}
+	h |= byte(w << 4)
+	pl := []byte{h}
+	for i, e := range elems {
+		if !(w != 0 && i == len(elems)-1) {
+			pl = putLeb(pl, uint64(len(e)))
+		}
+		pl = append(pl, e...)
+	}
+	add(pr.marker, pl)
+	if !pr.marker {
+		add(true, []byte{0x10, 7})
+	}
+	return hist
+}
+
+func ones(n int) []int {
+	s := make([]int, n)
+	for i := range s {
+		s[i] = 1
+	}
+	return s
+}
+
+// nearCapProbes: a fragmented OBU of cap-k bytes (k = 0, 1, ...) completed by a packet that carries
+// nothing else / further complete OBUs of k, k+1 or many bytes / OBUs up to and beyond the count
+// cap, with and without marker, with W or with sizes, with a non-empty frame buffer, and the
+// fragment path itself driven one byte over the cap.
+func nearCapProbes(ctx *hx.Ctx) {
+	z := func(frag int, extras []int, marker, useW bool) ncProbe {
+		return ncProbe{fragTotal: frag, extras: extras, marker: marker, finalZ: true, useW: useW}
+	}
+	probes := []ncProbe{
+		z(capSize, nil, true, true),          // exactly the cap, alone: returned
+		z(capSize, []int{1000}, true, true),  // the cap plus a complete OBU in the completing packet
+		z(capSize-1, []int{1}, true, false),  // exactly the cap in two OBUs: returned
+		z(capSize-1, []int{2}, true, true),   // one byte over
+		z(capSize-9, ones(9), true, false),   // exactly the cap in exactly MaxOBUsPerTemporalUnit OBUs
+		z(capSize-9, ones(10), true, false),  // one OBU too many
+		z(capSize, []int{1000}, false, true), // same as the second one, marker on a later packet
+		z(capSize+1, nil, true, true),        // the fragment path one byte over the cap
+		{pre: []int{50000}, fragTotal: capSize - 50000, extras: []int{1}, marker: true, finalZ: true}, // frame buffer not empty
+	}
+	if ctx.Thorough {
+		for _, k := range []int{0, 1, 2, 127, 128, 16383} {
+			for _, ex := range [][]int{nil, {k}, {k + 1}, {60000}, {k, 1}, ones(9), ones(10), append(ones(8), k+1)} {
+				ok := true
+				for _, e := range ex {
+					if e == 0 {
+						ok = false
+					}
+				}
+				if !ok {
+					continue
+				}
+				for _, marker := range []bool{true, false} {
+					probes = append(probes, z(capSize-k, ex, marker, len(ex)%2 == 0))
+				}
+				probes = append(probes, ncProbe{fragTotal: capSize - k, extras: append(append([]int{}, ex...), 5), marker: true, finalZ: true, finalY: true})
+				probes = append(probes, ncProbe{fragTotal: capSize - k, extras: ex, marker: true, finalZ: false, useW: true})
+				probes = append(probes, ncProbe{pre: []int{1000, 2000}, fragTotal: capSize - 3000 - k, extras: ex, marker: true, finalZ: true})
+			}
+		}
+	}
+	for _, pr := range probes {
+		runHistory(ctx, pr.String(), pr.history())
+	}
+}
+
 func main() {
 	ctx := hx.Start("av1")
 	defer ctx.Finish()
@@ -614,6 +810,7 @@ func main() {
 	if ctx.Prop == "C08" {
 		capBoundary(ctx, 0)
 		capBoundary(ctx, 1)
+		nearCapProbes(ctx)
 	}
 	Format.Run(ctx)
 	if ctx.Prop == "C08" {
